@@ -22,20 +22,20 @@ Definition w_ok (legacy : bool) (chunk : Z) (cmds : list cmd) : bool :=
 
 (* (a) automatic steps from a view that does not start on a sample return the sample at the
        view end and return it again on the next step *)
-Definition w_auto : list cmd := [SeekFirst; NextAuto; NextAuto].
+Definition lw_auto : list cmd := [SeekFirst; NextAuto; NextAuto].
 (* (b) a forward walk loses the rest of a domain after a view without samples *)
-Definition w_skip : list cmd := [SeekFirst; Next 3; Next 1; Next 100].
+Definition lw_skip : list cmd := [SeekFirst; Next 3; Next 1; Next 100].
 (* (c) a step back after the domain iterator ran off the end returns nothing *)
-Definition w_back : list cmd := [SeekFirst; Next 1000; Next 5; Prev 990].
+Definition lw_back : list cmd := [SeekFirst; Next 1000; Next 5; Prev 990].
 
-Lemma legacy_auto_refuted : w_ok true 2 w_auto = false.
+Lemma legacy_auto_refuted : w_ok true 2 lw_auto = false.
 Proof. vm_compute. reflexivity. Qed.
-Lemma legacy_skip_refuted : w_ok true 2 w_skip = false.
+Lemma legacy_skip_refuted : w_ok true 2 lw_skip = false.
 Proof. vm_compute. reflexivity. Qed.
-Lemma legacy_back_refuted : w_ok true 2 w_back = false.
+Lemma legacy_back_refuted : w_ok true 2 lw_back = false.
 Proof. vm_compute. reflexivity. Qed.
 Lemma fixed_witnesses_ok :
-  w_ok false 2 w_auto = true /\ w_ok false 2 w_skip = true /\ w_ok false 2 w_back = true.
+  w_ok false 2 lw_auto = true /\ w_ok false 2 lw_skip = true /\ w_ok false 2 lw_back = true.
 Proof. vm_compute. auto. Qed.
 
 (* (d) Distance over contiguous index domains: a range ending exactly at the end of the second
